@@ -63,7 +63,8 @@ def c01(tier):
              + mk("bus", 150 if q else 6000, s + 2, "tiny", n_ops=90, opts=dict(weights=w, colliding=10))
              + mk("bus", 100 if q else 5000, s + 3, "default", n_ops=200, opts=dict(weights=w, colliding=40, n_peers=(3, 6)))
              + mk("bus", 50 if q else 3000, s + 4, "one", n_ops=70, opts=dict(weights=w))
-             + mk("bus", 50 if q else 3000, s + 5, "wide", n_ops=70, opts=dict(weights=w)))
+             + mk("bus", 50 if q else 3000, s + 5, "wide", n_ops=70, opts=dict(weights=w))
+             + mk("bus", 50 if q else 2000, s + 6, "default", n_ops=70, opts=dict(weights=w), local_only=True))
     res = run_cases(cases)
     return report("C01", "exploration", res,
                   "random histories of add/remove/change/fetch/unfetch/get/connect/disconnect by 2-7 peers over raw, unix and WebSocket transports, random "
@@ -267,6 +268,11 @@ def c07(tier):
     mid = mk("reclaim", 250 if q else 8000, s + 7, "default", mode="bus", n_ops=60) + mk("reclaim", 100 if q else 3000, s + 8, "default", mode="hostile", n_ops=40)
     for i, c in enumerate(mid):
         c["params"] = dict(c["params"], sigterm_mid=(c["seed"] * 7 + i) % 45)
+    from .scen_res import STARTUP_CALLS
+    for call, n in STARTUP_CALLS:
+        for nth in range(1, n + 1):
+            for local in (False, True):
+                cases.append(dict(kind="startup", seed=nth, config="default", sim=True, params=dict(call=call, nth=nth, local=local)))
     real = mk("realdiff", 40 if q else 1500, s + 11, "default")
     for c in real:
         c["sim"] = False
@@ -277,6 +283,7 @@ def c07(tier):
                   "descriptors / timers / epoll registrations are compared with the idle baseline, or SIGTERM is delivered at a seeded step (exit status 0, "
                   "accounted heap 0, no descriptor open, LeakSanitizer silent); during every run: descriptor-hygiene monitor of the simulated kernel (descriptors "
                   "are never reused, so double close / use after close / foreign descriptors are always visible) and the heap-cap assertion in the allocation tap; "
+                  "every start-up call (socket / setsockopt / fcntl / bind / listen / epoll_create / epoll_ctl, n-th occurrence, with and without -l) failing in turn: the daemon gives up (or carries on) with nothing left open or accounted; "
                   "plus scripts against the unwrapped daemon on the real kernel ended by a real SIGTERM (exit status 0, LeakSanitizer silent); "
                   "distinct = signatures of all monitors incl. injected (call, errno) pairs and termination states",
                   t0, tier, SIM_ASSUME, min_events={"baseline_checks": 500, "shutdowns": 800})
